@@ -1,6 +1,7 @@
 """C12 — SequOOL opens cells depth by depth within its harmonic budget."""
 from .. import configs
 from ..algorun import replay_algo, run_algo_task
+from ..world import QueryAfterRound
 from ..refs.sequool import SequOOLOracle, h_max_of
 
 ID = "C12"
@@ -44,7 +45,7 @@ def tasks(tier, seed):
             for base in (("twopeak", "zero") if tier == "quick" else ("twopeak", "zero", "alt", "negpeak")):
                 ts.append({"kind": "algo", "label": "dev/%s/n%d/%s" % (part, n, base), "cfg": cfg, "mode": "dev", "T": L + 3,
                            "R": list(configs.R3), "base": base, "k": 1 if tier == "quick" else 2,
-                           "max_exec": 3000 if tier == "quick" else 40000, "cost": 3 + L // 20})
+                           "max_exec": 3000 if tier == "quick" else 40000, "cost": 3 + L // 20, "query": tier == "thorough"})
     # E-sched: every budget n in a range, whole schedule + 3 rounds, two reward scripts (the schedule's shape is
     # reward-independent; rounding of h_max/h only shows for particular n)
     hi = 800 if tier == "quick" else 2000
@@ -80,6 +81,11 @@ def _mk():
     return [SequOOLOracle()]
 
 
+def _mkq():
+    # thorough tier: get_last_point() may be called after any round (a budgeted choice point)
+    return [QueryAfterRound(), SequOOLOracle()]
+
+
 def _nontrivial(ctx):
     if any(c["depth_before"] >= 1 for c in ctx.rec.calls):
         return tuple(tuple(map(float, x)) for x in ctx.points)
@@ -89,11 +95,11 @@ def _nontrivial(ctx):
 def run_task(task):
     if task["kind"] == "sched":
         return _sched_task(task)
-    return run_algo_task(task, _mk, nontrivial=_nontrivial)
+    return run_algo_task(task, _mkq if task.get("query") else _mk, nontrivial=_nontrivial)
 
 
 def replay(task, script):
-    return replay_algo(task, script, _mk)
+    return replay_algo(task, script, _mkq if task.get("query") else _mk)
 
 
 def bounds(tier):
